@@ -293,3 +293,29 @@ Theorem scoll_outcome_discipline log2 s sp o s' r evs : SCPR s sp -> scoll_answe
   (try_ = true -> r <> ObsThrow /\ existsb is_up evs = false) /\ (try_ = false -> r <> ObsNull) /\
   (r = ObsNull \/ r = ObsThrow -> exists sp', SCPR s' sp' /\ allocations_kept sp sp').
 Proof. apply (coll_outcome_discipline smg sg_ns sg_free sg_step (coll_bkt_me 1%N log2) small_usable LSmall SGR sgr_list sgr_pos sg_step_refines small_usable_nodes sg_step_ns sgr_ranges). Qed.
+
+(* ---------- C04 / C05 read on the three Exec collections ---------- *)
+Definition list_has_no_allocations (sp' : ast) (key : Z) : Prop := forall l', find_list key (a_lists sp') = Some l' -> l_allocs l' = [].
+
+Theorem ucoll_capacity_never_lost log2 os s sp s' tr : UCPR s sp -> ucoll_answers_ok log2 s sp os -> uc_run log2 s os = Some (s', tr) ->
+  exists sp', run sp tr = Some sp' /\ UCPR s' sp' /\
+    forall key n n', cc_nfree ug ug_ns ug_free s key = Some n -> cc_nfree ug ug_ns ug_free s' key = Some n' -> list_has_no_allocations sp' key -> n <= n'.
+Proof. apply (coll_capacity_never_lost ug ug_ns ug_free ugstep (coll_bkt log2) intr_usable LIntrusive UR ur_list ur_pos ustep_refines intr_usable_nodes ugstep_ns ur_ranges). Qed.
+Theorem ocoll_capacity_never_lost log2 os s sp s' tr : OCPR s sp -> ocoll_answers_ok log2 s sp os -> oc_run log2 s os = Some (s', tr) ->
+  exists sp', run sp tr = Some sp' /\ OCPR s' sp' /\
+    forall key n n', cc_nfree og og_ns og_free s key = Some n -> cc_nfree og og_ns og_free s' key = Some n' -> list_has_no_allocations sp' key -> n <= n'.
+Proof. apply (coll_capacity_never_lost og og_ns og_free og_step (coll_bkt log2) intr_usable LIntrusive OR or_list or_pos og_step_refines intr_usable_nodes og_step_ns or_ranges). Qed.
+Theorem scoll_capacity_never_lost log2 os s sp s' tr : SCPR s sp -> scoll_answers_ok log2 s sp os -> sc_run log2 s os = Some (s', tr) ->
+  exists sp', run sp tr = Some sp' /\ SCPR s' sp' /\
+    forall key n n', cc_nfree smg sg_ns sg_free s key = Some n -> cc_nfree smg sg_ns sg_free s' key = Some n' -> list_has_no_allocations sp' key -> n <= n'.
+Proof. apply (coll_capacity_never_lost smg sg_ns sg_free sg_step (coll_bkt_me 1%N log2) small_usable LSmall SGR sgr_list sgr_pos sg_step_refines small_usable_nodes sg_step_ns sgr_ranges). Qed.
+
+Theorem ucoll_destruction_returns_every_block s sp : UCPR s sp ->
+  ar_destroy_calls (cc_ar _ s) = map (fun b => UFree (fst b) (snd b)) (a_held sp) /\ destroy_ok sp (a_held sp) = true.
+Proof. intros H. exact (coll_destruction_returns_every_block _ _ _ _ _ H). Qed.
+Theorem ocoll_destruction_returns_every_block s sp : OCPR s sp ->
+  ar_destroy_calls (cc_ar _ s) = map (fun b => UFree (fst b) (snd b)) (a_held sp) /\ destroy_ok sp (a_held sp) = true.
+Proof. intros H. exact (coll_destruction_returns_every_block _ _ _ _ _ H). Qed.
+Theorem scoll_destruction_returns_every_block s sp : SCPR s sp ->
+  ar_destroy_calls (cc_ar _ s) = map (fun b => UFree (fst b) (snd b)) (a_held sp) /\ destroy_ok sp (a_held sp) = true.
+Proof. intros H. exact (coll_destruction_returns_every_block _ _ _ _ _ H). Qed.
